@@ -41,7 +41,10 @@ fn run(filters: &Value, headers: &[Header], chunks: &[Vec<u8>]) -> Vec<u8> {
 }
 
 pub fn run_case(id: usize, input: &Value) {
-    let body: Vec<u8> = input["body"].as_array().unwrap().iter().map(|x| x.as_u64().unwrap() as u8).collect();
+    let body: Vec<u8> = match input["body_rle"].as_array() {
+        Some(runs) => { let mut b = Vec::new(); for r in runs { if let Some(lit) = r.as_str() { b.extend_from_slice(lit.as_bytes()); } else { b.extend(std::iter::repeat(r[0].as_u64().unwrap() as u8).take(r[1].as_u64().unwrap() as usize)); } } b }
+        None => input["body"].as_array().unwrap().iter().map(|x| x.as_u64().unwrap() as u8).collect(),
+    };
     let enc_sent = input["enc"].as_str().unwrap().to_string();
     let enc = enc_sent.to_lowercase();
     let hname = input["hname"].as_str().unwrap_or("Content-Encoding").to_string();
@@ -73,11 +76,12 @@ pub fn run_case(id: usize, input: &Value) {
     let mut sel = Vec::new();
     for (d, s, b) in &log { if seen.insert((d.clone(), s.clone())) { sel.push(format!("({}, {}, {})", cq_str(d), cq_str(s), cq_bool(*b))); } }
     let coq = format!("{{| k_ctok := {}; k_enc := {}; k_filters := {}; k_plain := {}; k_sel := [{}]; k_nparts := {}; o_plain_run := {}; o_decoded := {}; o_passthrough := {} |}}",
-        cq_bool(ctok), cq_str(&enc), c03::cq_filters(&filters), cq_bytes(&body), sel.join("; "), chunks.len(), cq_bytes(&plain), cq_opt(&decoded, |d| cq_bytes(d)), cq_bool(passthrough));
+        cq_bool(ctok), cq_str(&enc), c03::cq_filters(&filters), crate::c09::cq_bytes_rle(&body), sel.join("; "), chunks.len(), crate::c09::cq_bytes_rle(&plain), cq_opt(&decoded, |d| crate::c09::cq_bytes_rle(d)), cq_bool(passthrough));
     let mut tags: Vec<String> = vec![format!("enc:{}", enc), format!("level:{}", level), format!("nparts:{}", chunks.len().min(9))];
     if enc_sent != enc { tags.push("enc-uppercase".into()); }
     if hname != "Content-Encoding" { tags.push("header-name-case".into()); }
     if body.is_empty() { tags.push("empty-body".into()); }
+    if body.len() > 40000 { tags.push("big-body".into()); }
     if passthrough { tags.push("passthrough".into()); }
     if decoded.is_none() { tags.push("not-a-complete-stream".into()); }
     if chunks.iter().any(|c| c.is_empty()) { tags.push("empty-chunk".into()); }
@@ -86,12 +90,26 @@ pub fn run_case(id: usize, input: &Value) {
     for f in filters.as_array().unwrap() { tags.push(format!("f:{}", f["action"].as_str().unwrap())); }
     tags.sort(); tags.dedup();
     let nontrivial = decoded.as_ref().map(|d| d != &body).unwrap_or(false) && chunks.len() >= 2;
-    emit(id, &coq, input.clone(), &tags, nontrivial, json!({"plain": String::from_utf8_lossy(&plain), "decoded": decoded.as_ref().map(|d| String::from_utf8_lossy(d).to_string()), "out_len": out.len(), "stream_len": stream.len()}));
+    emit(id, &coq, input.clone(), &tags, nontrivial, json!({"plain": if plain.len() > 2000 { json!(format!("<{} bytes>", plain.len())) } else { json!(String::from_utf8_lossy(&plain)) }, "decoded": decoded.as_ref().map(|d| if d.len() > 2000 { format!("<{} bytes>", d.len()) } else { String::from_utf8_lossy(d).to_string() }), "out_len": out.len(), "stream_len": stream.len()}));
 }
 
 pub fn generate(seed: u64, thorough: bool) -> Vec<Value> {
     let mut out = Vec::new();
     let mut rng = Rng::new(seed ^ 0x14);
+    // bodies whose compressed form is tiny while one chunk inflates to far more than the codecs' internal buffers (long runs, text filters only)
+    let nbig = if thorough { 60 } else { 8 };
+    for _ in 0..nbig {
+        let mut body: Vec<u8> = Vec::new();
+        let mut rle: Vec<Value> = Vec::new();
+        for _ in 0..(1 + rng.below(4)) { let b = *rng.pick(&[b'a', b' ', b'\n', b'z']); let k = 30000 + rng.below(90000); body.extend(std::iter::repeat(b).take(k)); body.extend_from_slice(b"<p>mid</p>"); rle.push(json!([b, k])); rle.push(json!("<p>mid</p>")); }
+        let filters = vec![json!({"kind": "text", "action": *rng.pick(&["append_text", "prepend_text"]), "content": "[X]"})];
+        for enc in ["gzip", "deflate", "br"] {
+            let level = 1 + rng.below(9) as u32;
+            let slen = compress(enc, level, &body).unwrap().len();
+            let cuts: Vec<usize> = match rng.below(3) { 0 => vec![], 1 => vec![slen / 2], _ => { let stride = 16 + rng.below(64); (1..).map(|i| i * stride).take_while(|&c| c < slen).collect() } };
+            out.push(json!({"body_rle": rle, "enc": enc, "hname": "Content-Encoding", "level": level, "cuts": cuts, "ct": Value::Null, "filters": filters}));
+        }
+    }
     let ndocs = if thorough { 1500 } else { 150 };
     for _ in 0..ndocs {
         let (body, filters) = c03::gen_body_and_filters(&mut rng);
